@@ -648,6 +648,28 @@ class SymDatetime(datetime):
     def timestamp(self):
         return SymInt(self.us, 10**6)
 
+    def replace(self, **kw):  # pylint: disable=arguments-differ
+        """only tzinfo= is modelled: same wall-clock reading, new offset (the instant moves by the offset difference)"""
+        if set(kw) != {"tzinfo"}:
+            raise Unsupported("SymDatetime.replace(%s)" % ",".join(sorted(kw)))
+        tz = kw["tzinfo"]
+        if tz is None:
+            raise Unsupported("naive symbolic datetime")
+        if isinstance(tz, _SymTz):
+            newoff = tz.off
+        else:
+            newoff = Poly.const(tz.utcoffset(None) // timedelta(minutes=1))
+        return SymDatetime(self._local_us() - newoff.scale(US_PER_MIN), newoff)
+
+    def time(self):
+        return SymTime(self._local_us() - floordiv(self._local_us(), US_PER_DAY, "ord").scale(US_PER_DAY))
+
+    def timetz(self):
+        raise Unsupported("SymDatetime.timetz is not modelled")
+
+    def toordinal(self):
+        return self.date().toordinal()
+
     def concrete(self):
         us = engine.cur().value_of(self.us)
         off = engine.cur().value_of(self.off)
@@ -681,6 +703,43 @@ class SymDatetime(datetime):
 
 
 _block_inherited(SymDatetime, datetime, {"eval", "concrete", "min", "max", "resolution"})
+
+
+class SymTime:
+    """naive wall-clock time of day (microseconds since local midnight)"""
+
+    def __init__(self, us):
+        self.us = us
+
+    def _cmp(self, op, o):
+        if isinstance(o, SymTime):
+            return _c(self.us, op, o.us)
+        import datetime as _dt  # pylint: disable=import-outside-toplevel
+
+        if isinstance(o, _dt.time) and o.tzinfo is None:
+            return _c(self.us, op, Poly.const(((o.hour * 60 + o.minute) * 60 + o.second) * 10**6 + o.microsecond))
+        return NotImplemented
+
+    def __lt__(self, o):
+        return self._cmp("<", o)
+
+    def __le__(self, o):
+        return self._cmp("<=", o)
+
+    def __gt__(self, o):
+        return self._cmp(">", o)
+
+    def __ge__(self, o):
+        return self._cmp(">=", o)
+
+    def __eq__(self, o):
+        r = self._cmp("==", o)
+        return False if r is NotImplemented else r
+
+    def __ne__(self, o):
+        return not self.__eq__(o)
+
+    __hash__ = None
 
 
 class _SymTz:
